@@ -442,7 +442,10 @@ def str_of_int(v, width=0, force_sign=False):
     ds = digits_of(a, n) if type(a) is SymInt else list(_str(a))
     pre = ["-"] if neg else (["+"] if force_sign else [])
     pad = max(0, width - _len(ds) - _len(pre))
-    return SymStr.make(pre + ["0"] * pad + ds)
+    out = SymStr.make(pre + ["0"] * pad + ds)
+    if type(out) is SymStr:
+        out.num = v          # the number this text renders (harnesses may compare numerically)
+    return out
 
 
 _FMT = _re.compile(r"%(?:\((?P<key>[^)]*)\))?(?P<flags>[-+ 0#]*)(?P<width>\d+)?(?:\.(?P<prec>\d+))?(?P<conv>[diouxXeEfFgGcrsa%])")
